@@ -649,7 +649,17 @@ func smtName(n string) string {
 	return "|" + n + "|"
 }
 
+// smtTooLarge: the rendered query exceeded smtCapBytes. Subterms under a binder cannot be shared through
+// define-fun, so a change to the code can make one obligation's text grow exponentially; such an obligation is
+// not sent to a solver (verdict "toolarge": undecided, reported like a timeout) instead of exhausting memory.
+type smtTooLarge struct{}
+
+const smtCapBytes = 192 << 20
+
 func (t *Term) write(sb *strings.Builder, names map[int]string) {
+	if sb.Len() > smtCapBytes {
+		panic(smtTooLarge{})
+	}
 	if names != nil {
 		if n, ok := names[t.id]; ok {
 			sb.WriteString(n)
